@@ -6,6 +6,7 @@ A case:
     sig <idx> <scaled> <track> <ksize> <h:a,...|->
     tab <kind> <ds> <n*n tokens>         token(a,b) = sig_a.<method>(sig_b, downsample=ds): bits | N | E<Class>
     cmp <func> <kind> <ds> <jobs|-> <perm|->
+    recheck                              every matrix object handed out so far in the case (kept uncopied) still has its values
 
 The implementation answers a `tab` line with the table IT computes (so a disagreement with the
 pasted one = the pairwise API is not a function of its inputs); the model echoes the pasted table
@@ -186,6 +187,13 @@ def gen_case(rng, flavour):
                         lines.append(f"cmp allpairs {kind} {ds} {j} {ps}")
                 else:
                     lines.append(f"cmp {func} {kind} {ds} - {ps}")
+    # results are values: after every pool-based call, and at the end, all matrices handed out so far are re-read
+    out = []
+    for l in lines:
+        out.append(l)
+        if l.startswith(("cmp parallel", "cmp allpairs")):
+            out.append("recheck")
+    lines = out + ["recheck"]
     if rng.random() < 0.03:
         k0 = [k for k in kinds if k in SIM_KINDS][0]
         lines.append(f"cmp serial {k0} {kind_ds[k0]} - -")          # empty list
@@ -217,6 +225,12 @@ def parse_case(case, impl):
 
 def oracle(case, impl):
     bad = []
+    for idx, (l, o) in enumerate(zip(case, impl)):
+        if l == "recheck" and "CHANGED" in o:
+            bad.append((idx, "C16:earlier-result-changed",
+                        "a matrix returned by an earlier call no longer holds the values it was returned with, after: "
+                        + next((case[j] for j in range(idx - 1, -1, -1) if case[j].startswith("cmp ")), "?")[:60]
+                        + "; changed result(s) of: " + o.split("CHANGED", 1)[1][:200]))
     scaled, tabs, ops = parse_case(case, impl)
     seen = {}
     by_perm = {}
